@@ -183,6 +183,8 @@ def c19():
         # omitted data means null
         run_case("apply(v)", {"f": "apply", "rule": desc_r}, lambda: jsonlogic_rs.apply(r), rt, "null")
         run_case("apply(v,None)", {"f": "apply", "rule": desc_r, "data": None}, lambda: jsonlogic_rs.apply(r, None), rt, "null")
+        run_case("apply(value=v)", {"f": "apply", "rule": desc_r, "kw": "value"}, lambda: jsonlogic_rs.apply(value=r), rt, "null")
+        run_case("apply_serialized(value=t)", {"f": "apply_serialized", "rule_text": rt, "kw": "value"}, lambda: jsonlogic_rs.apply_serialized(value=rt), rt, "null")
         run_case("apply_serialized(t)", {"f": "apply_serialized", "rule_text": rt}, lambda: jsonlogic_rs.apply_serialized(rt), rt, "null")
         run_case("apply_serialized(t,None)", {"f": "apply_serialized", "rule_text": rt, "data": None}, lambda: jsonlogic_rs.apply_serialized(rt, None), rt, "null")
         run_case("apply_serialized(t,deserializer=)", {"f": "apply_serialized", "rule_text": rt, "deserializer": "tagged"},
@@ -196,6 +198,12 @@ def c19():
             base = {"rule": desc_r, "data": desc_d}
             run_case("apply(v,d)", dict(base, f="apply"), lambda: jsonlogic_rs.apply(r, d), rt, dt)
             run_case("apply(v,data=d)", dict(base, f="apply", kw=True), lambda: jsonlogic_rs.apply(r, data=d), rt, dt)
+            # every parameter by keyword (the first parameter is called `value`), in both orders
+            run_case("apply(value=v,data=d)", dict(base, f="apply", kw="all"), lambda: jsonlogic_rs.apply(value=r, data=d), rt, dt)
+            run_case("apply(data=d,value=v)", dict(base, f="apply", kw="all-reversed"), lambda: jsonlogic_rs.apply(data=d, value=r), rt, dt)
+            run_case("apply_serialized(value=t,data=dt)", dict(f="apply_serialized", rule_text=rt, data_text=dt, kw="all"), lambda: jsonlogic_rs.apply_serialized(value=rt, data=dt), rt, dt)
+            run_case("apply_serialized(t,dt,deserializer=)", dict(f="apply_serialized", rule_text=rt, data_text=dt, deserializer="tagged", kw="deserializer"),
+                     lambda: jsonlogic_rs.apply_serialized(rt, dt, deserializer=tagged), rt, dt, post=lambda text, v: ("D", text))
             run_case("apply(v,d,serializer)", dict(base, f="apply", serializer="compact"), lambda: jsonlogic_rs.apply(r, d, compact), compact(r), compact(d))
             run_case("apply(v,d,None,deserializer)", dict(base, f="apply", deserializer="tagged"),
                      lambda: jsonlogic_rs.apply(r, d, None, tagged), rt, dt, post=lambda text, v: ("D", text))
